@@ -229,3 +229,65 @@ func Harness_C11_setXattrs()       { stepXattr(pC11, xSetXattrs) }
 func Harness_C11_writeWithXattrs() { stepXattr(pC11, xWriteWithXattrs) }
 func Harness_C11_writeTombstone()  { stepXattr(pC11, xWriteTombstone) }
 func Harness_C11_deleteWithXattrs() { stepXattr(pC11, xDeleteWithXattrs) }
+
+// ---------- WithMeta entry points ----------
+
+func stepWithMeta(mask int, del bool) {
+	k := kvBegin(mask)
+	ctx := context.Background()
+	oldCas, newCas := verifU64("oldCas"), verifU64("newCas")
+	verifAssume(verifAnd(newCas > 0, newCas < 1<<62)) // a CAS the driver can store
+	exp := verifU32("exp")
+	verifAssume(verifOr(exp == 0, exp > kMaxDeltaTtl)) // WithMeta takes an absolute expiry
+	xattrs := verifXattrsBlob("xattrs")
+	verifAssume(verifXattrsWellFormed(xattrs))
+	var body []byte
+	var err error
+	if del {
+		err = k.c.DeleteWithMeta(ctx, k.key, oldCas, newCas, exp, xattrs)
+	} else {
+		body = verifBytes("body")
+		verifAssume(body != nil)
+		isJSON := verifBool("json")
+		dt := sgbucket.FeedDataTypeRaw
+		if isJSON {
+			dt = sgbucket.FeedDataTypeJSON
+		}
+		err = k.c.SetWithMeta(ctx, k.key, oldCas, newCas, exp, xattrs, body, dt)
+	}
+	post := k.post()
+	casOK := verifOr(verifAnd(k.pre.Present, uint64(k.pre.Cas) == oldCas), verifAnd(!k.pre.Present, oldCas == 0))
+	if err != nil {
+		k.failed("refused")
+		if k.want(pC02 | pC01) {
+			verifAssert(!casOK, "a WithMeta write whose expected CAS is current (0 = no such document) is applied")
+		}
+		return
+	}
+	verifReach("applied")
+	if k.want(pC02 | pC01) {
+		verifAssert(casOK, "a WithMeta write is applied only if the expected CAS is current (0 = no such document)")
+	}
+	if k.want(pC01 | pC07) {
+		verifAssert(verifAnd(post.Present, uint64(post.Cas) == newCas, post.Exp == int64(exp), verifBytesEq(post.Xattrs, xattrs), verifBytesEq(post.Value, body)),
+			"a WithMeta write stores exactly the given body, xattrs, CAS and expiry")
+	}
+	k.mutated(post, false)
+	if k.want(pC08) {
+		k.checkEvents(post)
+	}
+	if k.want(pC05) {
+		verifAssert((post.Tombstone == 1) == del, "SetWithMeta yields a live document, DeleteWithMeta a tombstone")
+	}
+}
+
+func Harness_C01_setWithMeta()    { stepWithMeta(pC01, false) }
+func Harness_C01_deleteWithMeta() { stepWithMeta(pC01, true) }
+func Harness_C02_setWithMeta()    { stepWithMeta(pC02, false) }
+func Harness_C02_deleteWithMeta() { stepWithMeta(pC02, true) }
+func Harness_C05_setWithMeta()    { stepWithMeta(pC05, false) }
+func Harness_C05_deleteWithMeta() { stepWithMeta(pC05, true) }
+func Harness_C08_setWithMeta()    { stepWithMeta(pC08, false) }
+func Harness_C08_deleteWithMeta() { stepWithMeta(pC08, true) }
+func Harness_C17_setWithMeta()    { stepWithMeta(pC17, false) }
+func Harness_C17_deleteWithMeta() { stepWithMeta(pC17, true) }
